@@ -1397,6 +1397,32 @@ def fam_upscale_chain(rng, kind=None):
 FAMILIES["upscale_chain"] = fam_upscale_chain
 
 
+def fam_split_conv(rng, kind=None):
+    """C10: input -> SPLIT in two (along depth or along width) -> one 3x3 SAME CONV_2D with 32 (or 48) output channels per
+    part.  Vela folds the split into the consumers (read offset / read shape) and, with weights that need DMA (default
+    Ethos-U55 configuration), runs each convolution as several OFM depth slices.  kind: "depth" | "width" | None (drawn)"""
+    net = Net("split_conv")
+    kind = kind or rng.choice(["depth", "width"])
+    h = rng.choice([4, 8, 8, 12])
+    if kind == "depth":
+        w, c, axis = rng.choice([8, 8, 16]), rng.choice([32, 64, 64]), 3
+    else:
+        w, c, axis = rng.choice([16, 16, 32]), rng.choice([16, 32, 32]), 2
+    x = _inp(net, rng, [1, h, w, c], "int8")
+    shp = [1, h, w, c]
+    shp[axis] //= 2
+    parts = [net.tensor(shp, "int8", x.scale, x.zp) for _ in range(2)]
+    ax = net.tensor([], "int32", None, None, axis)
+    net.op("SPLIT", [ax, x], parts, dict(NumSplits=2))
+    for p in parts:
+        y = conv2d(net, rng, p, rng.choice([32, 32, 48]), (3, 3), (1, 1), (1, 1), "SAME", rng.choice(["NONE", "RELU"]))
+        net.output(y)
+    return net
+
+
+FAMILIES["split_conv"] = fam_split_conv
+
+
 def generate(family, seed):
     """family may be "single:<kind>" / "unsupported:<kind>" to fix the operator kind"""
     rng = random.Random("%s/%s" % (family, seed))
